@@ -20,6 +20,14 @@ def list_packages(project, root, filename):
     return sorted(r for r in project.list_packages(root))
 
 
+def parses(source):
+    try:
+        source.tree
+    except SyntaxError:
+        return False
+    return True
+
+
 def assist(project, source, position, filename=None, debug=False):
     source = Source(source, filename, position)
     ctx = EvalCtx(project)
@@ -31,7 +39,9 @@ def assist(project, source, position, filename=None, debug=False):
     while start and ('a' + line[start - 1]).isidentifier():
         start -= 1
     prefix = line[start:]
-    if line.lstrip().startswith('from ') and ' import ' not in line:
+    if line.lstrip().startswith('from ') and ' import ' not in line and not parses(source):
+        # a half-typed `from pkg.mo|`: nothing to analyse, complete the module name. (A line that merely
+        # starts with `from ` - the continuation of `raise X \` or `yield \` - is part of a text that parses.)
         iname = line.rpartition(' ')[2]
         package, sep, _ = iname.rpartition('.')
         if (not package or package.startswith('.')) and sep:
